@@ -167,6 +167,29 @@ def run_harmless(path, known_oids):
         shutil.rmtree(wd, ignore_errors=True)
 
 
+def harmless_for(G, pid, cap=8, workers=4, seed=0):
+    """thorough tier: a sample of the harmless-change set that touches source files of the functions carrying `pid` (precision self-test)"""
+    import random
+    from .checks import load_known
+    known = {k['obligation_id'] for k in load_known() if k.get('status') == 'open' and 'obligation_id' in k}
+    files_of_pid = {G.fns[o['fid']].src_path for o in G.obligations.values() if pid in o['tags'] and o['fid'] in G.fns}
+    root = os.path.join(VERIF, 'harmless')
+    cands = []
+    for f in sorted(os.listdir(root)):
+        if f.endswith('.diff'):
+            txt = open(os.path.join(root, f)).read()
+            touched = set(re.findall(r'^\+\+\+ b/(\S+)', txt, re.M))
+            if touched & files_of_pid:
+                cands.append(os.path.join(root, f))
+    random.Random(seed).shuffle(cands)
+    pick = cands[:cap]
+    with ThreadPoolExecutor(max_workers=workers) as ex:
+        res = list(ex.map(lambda f: run_harmless(f, known), pick))
+    return {'available_for_these_files': len(cands), 'run': len(pick), 'quiet': sum(1 for r in res if r['status'] == 'quiet'),
+            'undecided': [r['patch'] for r in res if r['status'] in ('undecided', 'stale')],
+            'false_alarms': [{'patch': r['patch'], 'props': r.get('props')} for r in res if r['status'] == 'FALSE-ALARM']}
+
+
 def harmless(workers=4):
     from .checks import load_known
     known = {k['obligation_id'] for k in load_known() if k.get('status') == 'open' and 'obligation_id' in k}
